@@ -235,6 +235,17 @@ impl<TX> Recv<TX> {
         reset_frame: &ResetStreamFrame,
     ) -> Result<usize, QuicError> {
         let final_size = reset_frame.final_size();
+        if final_size > self.max_stream_data {
+            return Err(QuicError::new(
+                ErrorKind::FlowControl,
+                reset_frame.frame_type().into(),
+                format!(
+                    "{} reset with final size {final_size} which exceeds the stream data limit {}",
+                    reset_frame.stream_id(),
+                    self.max_stream_data
+                ),
+            ));
+        }
         if final_size < self.largest {
             return Err(QuicError::new(
                 ErrorKind::FinalSize,
